@@ -21,6 +21,12 @@ def run(ctx):
     # portfolios with binary variables next to assets that have none (mapping column 'bool' partly missing)
     specs += gen.gen_many(ctx.seed, n // 3, dict(CFG, p_coarse=0.0, p_periodic=0.0, p_no_simult=0.7, p_max_store=0.3, n_assets=(2, 4), T=(4, 7),
                                                  kinds={'SimpleContract': 3, 'Transport': 2, 'Storage': 4, 'Contract': 1}), 'c15mip_')
+    # the balance of one node is not modelled (skip_nodes), with assets that live at that node only
+    skp = gen.gen_many(ctx.seed, n // 3, dict(CFG, nodes=(2, 3), p_coarse=0.0, p_periodic=0.0, n_assets=(2, 4), kinds={'SimpleContract': 4, 'Storage': 2, 'Transport': 2, 'Contract': 1}), 'c15sk_')
+    for sp in skp:
+        r_ = random.Random(str(sp['seed']) + '/skip')
+        sp['opts']['skip_nodes'] = [r_.choice(sorted(set(nn for a in sp['assets'] for nn in a['nodes'])))]
+    specs += skp
     for i, sp in enumerate(specs):
         rng = random.Random(str(sp['seed']) + '/fix')
         if 'fix' not in sp['opts']:
